@@ -35,6 +35,7 @@ var swaps = map[token.Token][]string{
 
 func main() {
 	repo := flag.String("repo", "/repo", "repository root")
+	ops := flag.String("ops", "operators", "operators | statements (statement deletion, conditions forced true / false)")
 	flag.Parse()
 	enc := json.NewEncoder(os.Stdout)
 	for _, d := range []string{"", "v2", "v3"} {
@@ -70,6 +71,39 @@ func main() {
 						return
 					}
 					enc.Encode(mutant{File: rel, Offset: p.Offset, Old: old, New: new, Line: p.Line, Fn: name})
+				}
+				span := func(from, to token.Pos, new string) {
+					a, b := fset.Position(from).Offset, fset.Position(to).Offset
+					enc.Encode(mutant{File: rel, Offset: a, Old: string(src[a:b]), New: new, Line: fset.Position(from).Line, Fn: name})
+				}
+				if *ops == "statements" {
+					ast.Inspect(fd.Body, func(n ast.Node) bool {
+						switch x := n.(type) {
+						case *ast.ExprStmt:
+							span(x.Pos(), x.End(), "{}")
+						case *ast.AssignStmt:
+							if x.Tok != token.DEFINE {
+								span(x.Pos(), x.End(), "{}")
+							}
+						case *ast.IncDecStmt:
+							span(x.Pos(), x.End(), "{}")
+						case *ast.IfStmt:
+							span(x.Cond.Pos(), x.Cond.End(), "true")
+							span(x.Cond.Pos(), x.Cond.End(), "false")
+						case *ast.ForStmt:
+							if x.Cond != nil {
+								span(x.Cond.Pos(), x.Cond.End(), "false")
+							}
+						case *ast.BranchStmt:
+							if x.Tok == token.BREAK && x.Label == nil {
+								span(x.Pos(), x.End(), "continue")
+							}
+						case *ast.DeferStmt:
+							span(x.Pos(), x.End(), "{}")
+						}
+						return true
+					})
+					continue
 				}
 				ast.Inspect(fd.Body, func(n ast.Node) bool {
 					switch x := n.(type) {
